@@ -520,7 +520,12 @@ def gen_dst_classes(rng):
             senders.append((nh, 6 if ":" in ip else 4, h))
             nh += 1
     listeners = []
-    for h, ip, port in [(0, "0.0.0.0", P), (0, "::", P), (1, "10.0.1.1", P), (1, "0.0.0.0", P + 1), (2, "0.0.0.0", P)]:
+    lspec = [(0, "0.0.0.0", P), (0, "::", P), (1, "10.0.1.1", P), (1, "0.0.0.0", P + 1), (2, "0.0.0.0", P)]
+    if rng.random() < 0.4:
+        lspec = []                      # nobody listens: every SYN that reaches a host is refused
+    elif rng.random() < 0.5:
+        lspec = [x for x in lspec if x[1] not in ("0.0.0.0", "::")]
+    for h, ip, port in lspec:
         script.append(["listen", h, ip, port])
         listeners.append(nh)
         nh += 1
